@@ -1153,7 +1153,6 @@ func boundToTx(p *Program, f *FuncSrc, call *ast.CallExpr) bool {
 	return isBound(f, sel.X, 0)
 }
 
-
 // checkC14Publish: the in-progress entry is complete when it becomes visible.  Other goroutines read the
 // entry's Transaction flag in the cache-hit condition *before* they wait for the preparation, so every
 // field a hit condition reads has its final value in the literal that is inserted into the map (the flag
